@@ -35,7 +35,10 @@ HINTS = [
 LATER_HINTS = ['LATER', 'Optional[LATER]', 'List[LATER]', 'Dict[str, LATER]', 'Union[int, LATER]', 'Tuple[LATER, ...]',
                'Type[LATER]', 'Sequence[List[LATER]]']
 
-PLACEMENTS = ['module', 'method', 'nested_method', 'closure', 'closure_in_method']
+PLACEMENTS = ['module', 'method', 'nested_method', 'closure', 'closure_in_method', 'class_attr', 'class_nested_attr']
+# class_attr / class_nested_attr: @beartype decorates the (outer) class and the annotation names an
+# attribute of the class body that defines the method (for the nested variant the outer class binds
+# the same name differently)
 FORMS = ['string', 'future', 'later_string', 'later_future']
 
 HEADER = '''{future}
@@ -114,6 +117,16 @@ def module_source(hint, placement, form):
         src += _indent(after, 8) if after else ''
         src += '        return f\nTARGET = K().mk()\n'
         return src, False
+    if placement in ('class_attr', 'class_nested_attr'):
+        # LATER stands for the class-body name here; it is bound *before* the method (the subject is
+        # which class body the string is evaluated in, not definition order)
+        bind = 'Later = UA'
+        if placement == 'class_attr':
+            src += f'@beartype\nclass K:\n    {bind}\n    def m(self, x: {ann}) -> {ann}:\n        return x\nTARGET = K.m\n'
+        else:
+            src += (f'@beartype\nclass K:\n    Later = UC\n    class N:\n        {bind}\n'
+                    f'        def m(self, x: {ann}) -> {ann}:\n            return x\nTARGET = K.N.m\n')
+        return src, True
     raise ValueError(placement)
 
 
@@ -123,7 +136,9 @@ def cases(tier, seed):
     lhints = LATER_HINTS if tier != 'quick' else LATER_HINTS[:4]
     for pl in PLACEMENTS:
         for form in FORMS:
-            for h in (lhints if form.startswith('later') else hints):
+            if pl.startswith('class_') and form.startswith('later'):
+                continue
+            for h in (lhints if (form.startswith('later') or pl.startswith('class_')) else hints):
                 if tier == 'quick' and pl in ('nested_method', 'closure_in_method') and hash((h, form)) % 2:
                     continue
                 name = f'{pl}:{form}:{h}'
@@ -269,7 +284,7 @@ def replay_c07(p):
         try:
             obj = universe.build(p['obj'])
             t = mod.TARGET
-            args = (mod.K.N() if spec['placement'] == 'nested_method' else mod.K(), obj) if has_self else (obj,)
+            args = (mod.K.N() if spec['placement'] in ('nested_method', 'class_nested_attr') else mod.K(), obj) if has_self else (obj,)
             try:
                 t(*args)
                 return 'accept'
